@@ -18,13 +18,13 @@ func init() {
 		Explanation: "Decided (structural necessary conditions, all in pkg/schema): " +
 			"W-cap — in writeFileChunks the bytes of a chunk are accumulated one byte per step of an integer counter that starts at 0; every way of going round the read loop without resetting that counter lies behind a comparison of the counter with a constant that bounds it, every reset of the counter is behind a Reset of the chunk buffer, the resulting maximal chunk length is <= schema.maxBlobSize, and maxBlobSize <= constants.MaxBlobSize; the string handed to the uploader is the buffer content taken before the buffer is reset and the blobref recorded in the span is computed from that same string. " +
 			"W-parts-first — in uploadBytes every CFG path on which the builder's type is (or may be) \"file\" reaches the upload of the builder's own JSON only over the err==nil edge of Get() on the future that collects the children; Get() waits for every child and hands a child's error back; every future returned by uploadBytes is waited for, attached to a parent's children, or returned; every return of writeFileChunks whose error can be nil lies after the loop that takes all tokens of the upload gate (trip count == gate capacity), on the 'nothing received' edge of a non-blocking receive from the very channel the upload goroutines report into, every upload goroutine is started under a token of that gate, and the error paths return a value that is known non-nil. " +
-			"R-bound — every reader readerForOffset returns (other than the empty reader) is wrapped by io.LimitReader whose byte bound is, as a linear expression, exactly (size of the first non-skipped part) - (offset - sizes of the skipped parts); the Seek into the part's data goes to exactly that in-part offset plus the part's 'offset' field, from the start. " +
+			"R-bound — every reader readerForOffset returns (other than the empty reader) is wrapped by io.LimitReader whose byte bound is, as a linear expression, exactly (size of the first non-skipped part) - (offset - sizes of the skipped parts); on every feasible way out of the part-skipping loop that offset is strictly smaller than the part's size (the reader is never empty at a part boundary); the Seek into the part's data goes to exactly that in-part offset plus the part's 'offset' field, from the start. " +
 			"W-keys — the JSON keys the part writer (populateParts) and the static-set writer (SetStaticSetMembers) emit are exactly the JSON tags of the fields the readers (BytesPart; superset.Members / MergeSets / Parts) decode. " +
 			"NOT decided: byte-for-byte round-trip equality for any content, where the rolling checksum puts split points, the shape of the span tree, ReadAt/Seek arithmetic above readerForOffset, static-set spreading and merging arithmetic, behaviour of the blob store underneath, overflow of the 64-bit size arithmetic.",
 		RuleDocs: map[string]string{
 			"W-cap":         "writeFileChunks: the chunk-length counter paired with (*bytes.Buffer).WriteByte; one obligation per loop back edge (bounded by a dominating comparison, or reset together with the buffer), one for the derived maximal chunk length against schema.maxBlobSize and constants.MaxBlobSize, one per uploadString call for 'payload = buffer content before Reset, ref = hash of payload'",
 			"W-parts-first": "uploadBytes: every start of the upload of the builder's own JSON (path search over the CFG with the facts type==file / Get() err==nil); (*uploadBytesFuture).Get: children joined, child error returned; every caller of uploadBytes/addBytesParts: the future is joined, attached or returned; writeFileChunks: every return classified as error-known-non-nil or success-after-drain-and-empty-error-channel",
-			"R-bound":       "readerForOffset: every returned reader (bound expression of its io.LimitReader, symbolically), and every Seek on the part's data",
+			"R-bound":       "readerForOffset: every returned reader (bound expression of its io.LimitReader, symbolically; in-part offset < part size on every feasible loop exit), and every Seek on the part's data",
 			"W-keys":        "writer/reader key agreement for bytes parts and static sets (go/types struct tags against map-index constants in the writer functions)",
 		},
 		Run:       runC15,
@@ -413,7 +413,7 @@ func c15RuleWCap(p *Program, r *Reporter) {
 	declared := c15ConstVal(p, "pkg/schema", "maxBlobSize")
 	hard := c15ConstVal(p, "pkg/constants", "MaxBlobSize")
 	n := 0
-	defer func() { r.Analysed("chunk_cap_obligations", n); r.Floor(rule, 6) }()
+	defer func() { r.Analysed("chunk_cap_obligations", n); r.Floor(rule, 5) }()
 
 	// (1) the uploads of chunk bytes and the buffer they come from
 	var bufCell ssa.Value
@@ -1248,6 +1248,7 @@ func c15ChunksJoined(p *Program, r *Reporter, rule string) int {
 			"the upload goroutine is not started under a token of the (one) upload gate or never returns it: draining the gate does not wait for this upload")
 	}
 	var drain *CallSite
+	var drainHdr *ssa.BasicBlock // header of the drain loop: passing it means the loop ran its full trip count
 	drainWhy := "no loop that takes all tokens of the upload gate"
 	if gate != nil {
 		capN := int64(-1)
@@ -1260,7 +1261,7 @@ func c15ChunksJoined(p *Program, r *Reporter, rule string) int {
 			if !c.IsStatic("go4.org/syncutil", "Gate", "Start") || originValue(c.Args()[0]) != gate || !inLoop(c.Block()) {
 				continue
 			}
-			trip, ok := c15TripCount(c.Block())
+			trip, hdr, ok := c15TripCount(c.Block())
 			switch {
 			case capN < 0:
 				drainWhy = "the gate's capacity is not a constant"
@@ -1268,9 +1269,11 @@ func c15ChunksJoined(p *Program, r *Reporter, rule string) int {
 				drainWhy = "the trip count of the loop around gate.Start() could not be established"
 			case trip != capN:
 				drainWhy = fmt.Sprintf("the loop takes %d tokens but the gate has %d: uploads can still be running when it ends", trip, capN)
+			case !(hdr == c.Block() || hdr.Dominates(c.Block())) || !c15StartEveryIteration(hdr, c):
+				drainWhy = "gate.Start() is not executed on every iteration of the counted loop"
 			default:
 				cc := c
-				drain = &cc
+				drain, drainHdr = &cc, hdr
 			}
 		}
 	}
@@ -1352,17 +1355,45 @@ func c15ChunksJoined(p *Program, r *Reporter, rule string) int {
 			}
 		}
 		switch {
-		case !c15MustPass(fn, drain.Block(), blk):
+		case !c15MustPass(fn, drainHdr, blk):
 			r.Violation(rule, construct, p.Pos(ri.Ret.Pos()), "this return can report success (error nil or not known non-nil) on a path that does not pass the loop taking all tokens of the upload gate: chunk uploads may still be running, their errors are lost and the file references blobs that were never stored")
 		case via == nil:
 			r.Violation(rule, construct, p.Pos(ri.Ret.Pos()), "this return can report success without being on the 'nothing received' edge of a non-blocking receive from the upload goroutines' error channel: a failed chunk upload is reported as success")
-		case !c15MustPass(fn, drain.Block(), via.sel.Block()) || c15Reaches(via.sel.Block(), drain.Block()):
+		case !c15MustPass(fn, drainHdr, via.sel.Block()) || via.sel.Block() == drainHdr || c15Reaches(via.sel.Block(), drainHdr):
 			r.Violation(rule, construct, p.Pos(ri.Ret.Pos()), "the error channel is polled before all tokens of the upload gate were taken: uploads still in flight can fail after the poll")
 		default:
 			r.OK(rule, construct, p.Pos(ri.Ret.Pos()), "success only after the loop that takes every token of the upload gate (trip count == capacity) and then finding the error channel empty")
 		}
 	}
 	return n
+}
+
+// c15StartEveryIteration: from the loop header every way back to the header
+// passes the Start call (the body is not skipped by a condition).
+func c15StartEveryIteration(hdr *ssa.BasicBlock, start CallSite) bool {
+	if start.Block() == hdr {
+		return true
+	}
+	seen := map[*ssa.BasicBlock]bool{}
+	var walk func(b *ssa.BasicBlock) bool // true if hdr is re-entered avoiding start's block
+	walk = func(b *ssa.BasicBlock) bool {
+		for _, s := range b.Succs {
+			if s == start.Block() {
+				continue
+			}
+			if s == hdr {
+				return true
+			}
+			if !seen[s] {
+				seen[s] = true
+				if walk(s) {
+					return true
+				}
+			}
+		}
+		return false
+	}
+	return !walk(hdr)
 }
 
 // c15NoWriteBetween: from instruction a to load b (a's block dominates b's,
@@ -1429,7 +1460,7 @@ func c15FalseMeansErrStored(lit *ssa.Function, cell ssa.Value, isRecvVal func(ss
 // c15TripCount: the number of iterations of the counted loop containing block
 // body: a phi P = [0, P+1] and an exit test `P < K` (before the body) or
 // `P+1 < K` (rotated, after the body), K constant.
-func c15TripCount(body *ssa.BasicBlock) (int64, bool) {
+func c15TripCount(body *ssa.BasicBlock) (int64, *ssa.BasicBlock, bool) {
 	fn := body.Parent()
 	for _, b := range fn.Blocks {
 		for _, in := range b.Instrs {
@@ -1484,12 +1515,12 @@ func c15TripCount(body *ssa.BasicBlock) (int64, bool) {
 					continue
 				}
 				if bo.X == ssa.Value(ph) || bo.X == ssa.Value(inc) {
-					return k, true
+					return k, b, true
 				}
 			}
 		}
 	}
-	return 0, false
+	return 0, nil, false
 }
 
 // ---------------------------------------------------------------------------
@@ -1631,6 +1662,152 @@ func c15PartField(v ssa.Value, name string) (slice ssa.Value, ok bool) {
 	return nil, false
 }
 
+// c15CmpHolds evaluates `x op y` on small integers.
+func c15CmpHolds(x int64, op token.Token, y int64) bool {
+	switch op {
+	case token.EQL:
+		return x == y
+	case token.NEQ:
+		return x != y
+	case token.LSS:
+		return x < y
+	case token.LEQ:
+		return x <= y
+	case token.GTR:
+		return x > y
+	case token.GEQ:
+		return x >= y
+	}
+	return false
+}
+
+func c15IsCmp(op token.Token) bool {
+	switch op {
+	case token.EQL, token.NEQ, token.LSS, token.LEQ, token.GTR, token.GEQ:
+		return true
+	}
+	return false
+}
+
+// c15LenFacts: what facts say about len(slice): +1 non-empty, -1 empty, 0 nothing.
+func c15LenFacts(facts []CondFact, slice ssa.Value) int {
+	isLen := func(v ssa.Value) bool {
+		c, ok := v.(*ssa.Call)
+		if !ok {
+			return false
+		}
+		b, ok := c.Call.Value.(*ssa.Builtin)
+		return ok && b.Name() == "len" && len(c.Call.Args) == 1 && c.Call.Args[0] == slice
+	}
+	for _, f := range facts {
+		cond, val := c15StripNot(f.Cond, f.Val)
+		bo, ok := cond.(*ssa.BinOp)
+		if !ok || !c15IsCmp(bo.Op) {
+			continue
+		}
+		var truth func(l int64) bool
+		if k, ok := ConstInt(bo.Y); ok && isLen(bo.X) {
+			truth = func(l int64) bool { return c15CmpHolds(l, bo.Op, k) }
+		} else if k, ok := ConstInt(bo.X); ok && isLen(bo.Y) {
+			truth = func(l int64) bool { return c15CmpHolds(k, bo.Op, l) }
+		} else {
+			continue
+		}
+		// representatives: 0 (empty) and 1, 2, 1<<40 (non-empty)
+		at0 := truth(0) == val
+		pos := truth(1) == val && truth(2) == val && truth(1<<40) == val
+		neg := truth(1) != val && truth(2) != val && truth(1<<40) != val
+		if !at0 && pos {
+			return +1
+		}
+		if at0 && neg {
+			return -1
+		}
+	}
+	return 0
+}
+
+// c15InsideFact: do the facts imply inPartOffset (R) < Size of parts[0]?
+func c15InsideFact(facts []CondFact, R ssa.Value, parts ssa.Value) bool {
+	strip := func(v ssa.Value) ssa.Value {
+		for {
+			if cv, ok := v.(*ssa.Convert); ok {
+				v = cv.X
+				continue
+			}
+			return v
+		}
+	}
+	isSize := func(v ssa.Value) bool { s, ok := c15PartField(strip(v), "Size"); return ok && s == parts }
+	isR := func(v ssa.Value) bool { return strip(v) == R }
+	for _, f := range facts {
+		cond, val := c15StripNot(f.Cond, f.Val)
+		bo, ok := cond.(*ssa.BinOp)
+		if !ok || !c15IsCmp(bo.Op) {
+			continue
+		}
+		var truth func(size, r int64) bool
+		switch {
+		case isSize(bo.X) && isR(bo.Y):
+			truth = func(size, r int64) bool { return c15CmpHolds(size, bo.Op, r) }
+		case isR(bo.X) && isSize(bo.Y):
+			truth = func(size, r int64) bool { return c15CmpHolds(r, bo.Op, size) }
+		default:
+			continue
+		}
+		// the fact must hold for r < size and fail for r == size and r > size
+		if truth(5, 4) == val && truth(5, 0) == val && truth(5, 5) != val && truth(5, 6) != val {
+			return true
+		}
+	}
+	return false
+}
+
+// c15PartNotExhausted: at block at, on every feasible way out of the loop that
+// skips leading parts (header = R's block), R < Size(parts[0]) is known.
+// Edges out of the loop that imply an empty part list are infeasible when
+// `at` is known to have a non-empty list.
+func c15PartNotExhausted(at *ssa.BasicBlock, R *ssa.Phi, parts ssa.Value) (bool, string) {
+	if c15InsideFact(FactsAt(at), R, parts) {
+		return true, "dominating comparison"
+	}
+	hdr := R.Block()
+	inLoopBlk := func(b *ssa.BasicBlock) bool {
+		return (b == hdr || hdr.Dominates(b)) && (b == hdr || c15Reaches(b, hdr))
+	}
+	// the first block on at's dominator chain that lies outside the loop and has a predecessor inside
+	var join *ssa.BasicBlock
+	for d := at; d != nil; d = d.Idom() {
+		if inLoopBlk(d) {
+			break
+		}
+		for _, pr := range d.Preds {
+			if inLoopBlk(pr) {
+				join = d
+			}
+		}
+	}
+	if join == nil {
+		return false, "no exit of the part-skipping loop dominates the reader"
+	}
+	atLen := c15LenFacts(FactsAt(at), parts)
+	feasible := 0
+	for _, pr := range join.Preds {
+		ef := c15EdgeFacts(pr, join)
+		if l := c15LenFacts(ef, parts); l != 0 && atLen != 0 && l != atLen {
+			continue // this way out contradicts what is known about len(parts) at the reader
+		}
+		feasible++
+		if !c15InsideFact(ef, R, parts) {
+			return false, fmt.Sprintf("the loop can be left through block %d without inPartOffset < part.Size being established", pr.Index)
+		}
+	}
+	if feasible == 0 {
+		return false, "no feasible way out of the loop"
+	}
+	return true, fmt.Sprintf("%d feasible loop exit(s), each on the failing side of the 'part is skipped' comparison", feasible)
+}
+
 type c15ReaderLeaf struct {
 	kind string // "limit", "empty", "nil", "unbounded", "opaque"
 	call *ssa.Call
@@ -1742,7 +1919,7 @@ func c15RuleRBound(p *Program, r *Reporter) {
 	fn := p.Func("pkg/schema", "FileReader", "readerForOffset")
 	key := FuncKey(fn)
 	n := 0
-	defer func() { r.Analysed("reader_bounds", n); r.Floor(rule, 3) }()
+	defer func() { r.Analysed("reader_bounds", n); r.Floor(rule, 5) }()
 
 	// the offset parameter (the int64 one)
 	var off *ssa.Parameter
@@ -1847,6 +2024,12 @@ func c15RuleRBound(p *Program, r *Reporter) {
 				r.Check(lin.equals(want), rule, construct, p.Pos(lf.call.Pos()),
 					"byte bound of the returned reader = part.Size - inPartOffset (what is left of the part after the in-part start offset)",
 					fmt.Sprintf("byte bound of the returned reader is [%s], not [part.Size - inPartOffset]: a read that starts inside the part runs past the part's end into bytes of the blob that do not belong to the file at this position (e.g. parts {blob \"0123456789\" size 5},{blob \"abcde\" size 5}: ReadAt(len 8, off 2) yields \"23456cde\" instead of \"234abcde\")", lin))
+				// the part the bound is taken from is not exhausted: inPartOffset < part.Size
+				n++
+				okProg, why := c15PartNotExhausted(lf.call.Block(), R, partsPhi)
+				r.Check(okProg, rule, key+"#progress:"+role, p.Pos(lf.call.Pos()),
+					"on every feasible way out of the part-skipping loop inPartOffset < part.Size holds, so the returned reader yields at least one byte ("+why+")",
+					"the part selected for the reader may be exhausted already (inPartOffset == part.Size is possible: "+why+"): a zero-length reader is returned at a part boundary and ReadAt/Read stop short in the middle of the file")
 			case "opaque":
 				n++
 				r.Undecided(rule, key+"#bound:opaque", p.Pos(ri.Ret.Pos()), "the returned reader comes from "+lf.v.String()+", which the analysis does not look into: bound not visible")
@@ -1892,7 +2075,7 @@ func c15RuleRBound(p *Program, r *Reporter) {
 func c15RuleKeys(p *Program, r *Reporter) {
 	const rule = "W-keys"
 	n := 0
-	defer func() { r.Analysed("key_tables", n); r.Floor(rule, 3) }()
+	defer func() { r.Analysed("key_tables", n); r.Floor(rule, 4) }()
 
 	jsonTags := func(st *types.Struct, only map[string]bool) map[string]string {
 		out := map[string]string{}
